@@ -500,6 +500,13 @@ def netCore (N : Nat) : Core α where
   size s := s.q.length
 
 /-! ### constructors with their `assert!` -/
+/-- `Alma::new_custom`: rejects kernels whose Gaussian weight underflows to zero at an end of the window (fix 5b7b627) -/
+def almaCoreC (N : Nat) (sigma offset : α) : M (Core α) :=
+  let wl : α := nat N
+  let m := offset * (wl + nat 1)
+  let sd := wl / sigma
+  if nat 0 < almaWeight m sd 0 ∧ nat 0 < almaWeight m sd (N - 1) then pure (almaCore N sigma offset)
+  else throw .assertFailed
 def minCore (N : Nat) : M (Core α) := if N = 0 then throw .assertFailed else pure (minCoreU N)
 def maxCore (N : Nat) : M (Core α) := if N = 0 then throw .assertFailed else pure (maxCoreU N)
 def welfordCore (N : Nat) : M (Core α) := if N = 0 then throw .assertFailed else pure (welfordCoreU N)
